@@ -5,8 +5,8 @@
    satisfies the accounting and propagation invariants for every small layout, every k, every mode and
    every set of needed tables.
 2. Fault enumeration on the real code: for every corpus font and EVERY k in 0..len(file):
-   Write, WriteTrueTypePDF, WriteOpenTypeCFFPDF, (*cff.Font).Write against the faulting destination (three
-   modes) and sfnt.Read against the cut file / failing io.ReaderAt / cut and failing plain io.Reader.
+   Write, WriteTrueTypePDF, WriteOpenTypeCFFPDF, (*cff.Font).Write against the faulting destination (six
+   modes: exact, atomic, short, eager = (full count, error), fail-once variants) and sfnt.Read against the cut file / failing io.ReaderAt / cut and failing plain io.Reader.
    sfnt.Read is also given the same tables re-assembled by an independent writer with every table in
    turn physically last and with an unknown last table of length 0..3 (mod 4), and the Go fonts shipped
    with golang.org/x/image (last table copied undecoded): k in windows around every table boundary in
@@ -26,9 +26,10 @@ MANIFEST = {
     "text": "For every font of a constructed corpus (TrueType, simple CFF, CID-keyed CFF; with/without "
             "GSUB/GPOS/GDEF, composites; 0.2-17 KB) and every fault point k in 0..len(file): Write, WriteTrueTypePDF, "
             "WriteOpenTypeCFFPDF and (*cff.Font).Write run against a destination that accepts k bytes and then fails "
-            "(exact, all-or-nothing and short-write modes), sfnt.Read runs against the file cut at k, a ReaderAt "
+            "(exact, all-or-nothing, short-write, eager = error reported together with the full count of the call "
+            "that consumes byte k, and fail-once variants), sfnt.Read runs against the file cut at k, a ReaderAt "
             "failing from k on, and the same through a plain io.Reader. TLC judges every recorded run against "
-            "IOFaultTrace.tla (error iff k < total, count = bytes accepted, success count = file length, cut inside "
+            "IOFaultTrace.tla (error iff the destination reported a failure, count = bytes accepted, success count = file length, cut inside "
             "table data rejected, failed access never swallowed, no panic); the rules are established on the model "
             "IOFault.tla (tables decoded / copied raw / skipped; a must-fail run without the end-of-table probe), "
             "which TLC checks exhaustively for all small layouts, all k and all modes. Read files include every table "
@@ -64,7 +65,7 @@ def _cfg(maxtables, maxlen, wmodes, rmodes, chunk, probe=True):
             % (maxtables, maxlen, q(wmodes), q(rmodes), chunk, "TRUE" if probe else "FALSE")) + _INV
 
 
-W3 = ["exact", "atomic", "short"]
+W3 = ["exact", "atomic", "short", "eager", "once", "eonce"]
 R4 = ["trunc", "failat", "strunc", "sfail"]
 _FAILED = re.compile(r'^<<"FAILED", (\d+), (\d+), (-?\d+), "([^"]*)">>')
 
